@@ -62,7 +62,8 @@ Definition digest (s : state) : Z :=
   let hr := hsum (fun e => Some (hmix [r_del e; r_src e; r_dst e; r_h e; r_bal e; r_sh e])) (s_reds s) in
   let hu := hsum (fun e => Some (hmix [u_del e; u_val e; u_h e; u_init e; u_bal e])) (s_ubds s) in
   let hp := hsum (fun kv : Z * Z => if snd kv =? 0 then None else Some (hmix [fst kv; snd kv])) (s_paid s) in
-  hmix [hv; ha; hr; hu; hp].
+  let hm := hsum (fun a : Z => Some (hmix [a])) (s_mig s) in
+  hmix [hv; ha; hr; hu; hp; hm].
 
 (* every history starts at genesis: the model starts from M_Shares.gen_state (for which the invariant of
    the theorems is proved) and the fingerprint of the real genesis projection must agree with it *)
